@@ -123,6 +123,12 @@ Proof.
 Qed.
 Lemma doc_eq_set_key a b k : doc_eq a b -> doc_eq (set_key a k) b.
 Proof. intro E. apply (doc_eq_fields_l a); try (destruct a; reflexivity). exact E. Qed.
+Lemma doc_eq_unnamed a b : doc_eq a b -> doc_eq (unnamed a) b.
+Proof.
+  intro E. apply (doc_eq_fields_l a); try (destruct a; reflexivity).
+  - destruct a as [ty vs vi vd key cs]. unfold unnamed. cbn [set_ty set_key n_ty]. apply tymask_ldiff. reflexivity.
+  - exact E.
+Qed.
 
 (** ---------- cJSON_Duplicate yields an equal document (below the circular limit) ---------- *)
 Lemma doc_eq_dup : forall item depth x, dwf item -> dup_rec item depth = Some x -> doc_eq x item /\ n_key x = n_key item.
